@@ -907,15 +907,18 @@ class MCur:
         a = parse(sql)
         if a[0] not in ('insert', 'update', 'delete'):
             raise sqlite3.ProgrammingError('executemany() can only execute DML statements.')
-        for p in list(seq):      # the caller's generator runs with tracing on
-            self.execute(sql, p)
+        items = list(seq)        # the caller's generator runs with tracing on
+        if self.conn.hook is not None:
+            self.conn.hook(a[0], sql)      # one call of executemany = one fault point
+        for p in items:
+            self.execute(sql, p, _hook=False)
         return self
 
-    def execute(self, sql, params=()):
+    def execute(self, sql, params=(), _hook=True):
         a = parse(sql)
         k = a[0]
         conn = self.conn
-        if conn.hook is not None:
+        if _hook and conn.hook is not None:
             conn.hook(k, sql)
         conn.log.append((k, a[1] if k in ('insert', 'update', 'delete') else None))
         self.rows = []
